@@ -535,6 +535,21 @@ theorem generated_state_decision_is_model (own : DefaultDS) (ebest erbest : Opti
           · simp [Leaf.eval, Leaf.evalBase]
           · simp [Leaf.eval, Leaf.evalBase])
 
+/-- **`BestAnnounceMessage::compare` as translated on this run is the model's `Best.compare`** (data set ordering of
+`self` against `other`, ties broken towards the newer message), and `find_best_announce_message` takes the
+maximum under it -/
+theorem generated_best_compare_is_model (x y : Best) :
+    ∀ t, Generated.bestCompareTable = some t → evalBestCompare t x y = Best.compare x y := by
+  intro t h
+  unfold Generated.bestCompareTable at h
+  cases h
+  all_goals (
+    unfold evalBestCompare Best.compare ordThen
+    simp only [if_true]
+    cases ((CmpDS.ofAnnounce x.ann x.identity).compare (CmpDS.ofAnnounce y.ann y.identity)).asOrdering <;> rfl)
+
+theorem generated_find_best_is_max : Generated.findBestIsMaxBy ≠ some false := by decide
+
 end Translated
 
 end Statime.C05
